@@ -55,9 +55,9 @@ class C15(PropBase):
     def run(self, case):
         from y0.algorithm.conditional_independencies import _len_lex, get_conditional_independencies
         g = case["g"]
-        gr = GG.to_y0(g)
-        before = GG.snapshot(gr)
         kw = {} if case["policy"] == "topo" else {"policy": _len_lex}
+        gr = GG.to_y0(g, warm=lambda partial, present: get_conditional_independencies(partial, max_conditions=case["mc"], **kw))
+        before = GG.snapshot(gr)
         js = get_conditional_independencies(gr, max_conditions=case["mc"], **kw)
         out = sorted([GG.vid(j.left), GG.vid(j.right), [GG.vid(c) for c in j.conditions], bool(j.separated)] for j in js)
         violation = None
